@@ -12,5 +12,7 @@ CONSTANTS
   CachePrefilled = TRUE
   LockGlobals = TRUE
   LockLocals = TRUE
+  GCachePrefilled = TRUE
+  FillGlobalCachesUnderLock = FALSE
 INVARIANTS NoRace TextEqual Mutex
 CHECK_DEADLOCK FALSE
